@@ -227,4 +227,4 @@ unsafe impl<S: BuildHasher + Clone + 'static> Sync for ExpirationMap<S> {}
 
 #[cfg(all(transparencies_stretto_verif, any(kani, test)))]
 #[path = "/verif/harness/h_ttl.rs"]
-mod verif_harness;
+pub(crate) mod verif_harness;
